@@ -52,6 +52,46 @@ def check(chk):
                       % (' (the holding list %s accepts a host more than once)' % via[0] if via else ''))
     if n_app < 3:
         raise AnalysisError('C26: replica appends not found')
+    # ---- per-iteration state is re-initialised in its loop
+    chk.rule('C26.scope', 'in NetworkTopologyStrategy the only state carried from one token / one datacenter to the next is the result map and the per-DC ring cursor; every other accumulator is initialised inside the loop that consumes it')
+    ntsf = meta.func('NetworkTopologyStrategy.make_token_replica_map')
+    ALLOWED = {'i': set(['replica_map', 'dc_to_current_index']),            # result; documented cursor "advancing around the ring for each DC"
+               'dc': set(['replicas', 'dc_to_current_index', 'replica_map'])}  # replicas = this token's result list, shared by the DCs on purpose
+    nloops = 0
+    for lp in [n for n in body_walk(ntsf) if isinstance(n, ast.For) and src(n.target) in ALLOWED and (src(n.target) != 'i' or 'len(ring)' in src(n.iter))]:
+        if src(lp.target) == 'dc' and 'dc_to_token_offset' not in src(lp.iter):
+            continue
+        nloops += 1
+        mutated = {}
+        local = set()
+        for blk in [lp] + [x for x in ast.walk(lp) if isinstance(x, (ast.For, ast.While)) and x is not lp]:
+            for st in blk.body:
+                if isinstance(st, ast.Assign):
+                    for t in st.targets:
+                        for e in (t.elts if isinstance(t, ast.Tuple) else [t]):
+                            if isinstance(e, ast.Name):
+                                local.add(e.id)
+        for x in ast.walk(lp):
+            if isinstance(x, ast.For) and x is not lp:
+                for e in ast.walk(x.target):
+                    if isinstance(e, ast.Name):
+                        local.add(e.id)
+        local.add(src(lp.target))
+        for x in ast.walk(lp):
+            if isinstance(x, ast.AugAssign) and isinstance(x.target, ast.Name):
+                mutated.setdefault(x.target.id, x)
+            elif isinstance(x, ast.Call) and isinstance(x.func, ast.Attribute) and isinstance(x.func.value, ast.Name) and x.func.attr in ('append', 'add', 'extend', 'update', 'insert', 'pop', 'remove', 'discard', 'clear'):
+                mutated.setdefault(x.func.value.id, x)
+            elif isinstance(x, (ast.Assign, ast.Delete)):
+                for t in (x.targets if isinstance(x, (ast.Assign, ast.Delete)) else []):
+                    if isinstance(t, ast.Subscript) and isinstance(t.value, ast.Name):
+                        mutated.setdefault(t.value.id, x)
+        carried = sorted(n for n in mutated if n not in local and n not in ALLOWED[src(lp.target)])
+        chk.judge(not carried, 'C26.scope', lp, 'loop over %s: accumulators %s are initialised in the loop body; carried on purpose: %s' % (src(lp.target), sorted(n for n in mutated if n in local), sorted(n for n in mutated if n in ALLOWED[src(lp.target)])),
+                  'the accumulator %s is modified inside the per-%s loop but initialised outside it: what one %s left in it leaks into the next (hosts skipped for one datacenter are placed as replicas of another)'
+                  % (carried, 'datacenter' if src(lp.target) == 'dc' else 'token', 'datacenter' if src(lp.target) == 'dc' else 'token'))
+    if nloops != 2:
+        raise AnalysisError('NetworkTopologyStrategy.make_token_replica_map: token loop / datacenter loop not recognised (%d)' % nloops)
     ss = meta.func('SimpleStrategy.make_token_replica_map')
     s = src(ss)
     chk.judge('len(hosts) < self.replication_factor and j < len(ring)' in s and 'ring[(i + j) % len(ring)]' in s, 'C26.bound', ss,
